@@ -130,6 +130,8 @@ class BallDevice(SystemWideDevice):
     async def handle_mechanical_eject_during_idle(self):
         """Handle mechanical eject."""
         # handle lost balls via outgoing balls handler (if mechanical eject)
+        # the ball is no longer available here. it is on its way to the target
+        self.available_balls -= 1
         self.config['eject_targets'][0].available_balls += 1
         eject = OutgoingBall(self.config['eject_targets'][0])
         eject.eject_timeout = self.config['eject_timeouts'][eject.target] / 1000
